@@ -654,3 +654,434 @@ Proof.
       rewrite (Htyp (rstrip_chars [nl] (show_expr a))); [apply fld_str_eqb_refl|].
       rewrite Hqt. unfold ann_text. rewrite Ea. reflexivity.
 Qed.
+
+(* ------------------------------------------------------------------ *)
+(* structure of a successful parse                                     *)
+(* ------------------------------------------------------------------ *)
+Definition append_kw (app m : list (str * gparam)) : list (str * gparam) :=
+  fold_left (fun d0 kv => od_set (fst kv) (snd kv) d0) app m.
+
+Lemma parse_function_structure : forall pi pj d n a b dc rr it ww ft fnm r,
+  fd_facts a -> doc_facts d (SFunc n a b dc rr) a ->
+  parse_function pi pj d (SFunc n a b dc rr) it ww ft fnm = Ok r ->
+  exists tparams app m,
+    kw_split a (doc_params d (SFunc n a b dc rr)) = Ok (tparams, app)
+    /\ merge_params pi tparams (sig_pairs a (pos_args a)) = Ok m
+    /\ set_names_and_types (append_kw app m) it ww = Ok (ir_params r)
+    /\ od_keys (append_kw app m) = expected_names d (SFunc n a b dc rr).
+Proof.
+  intros pi pj d n a b dc rr it ww ft fnm r F D H.
+  unfold parse_function in H.
+  destruct (pf_prepare d (SFunc n a b dc rr) ft fnm) as [pp|] eqn:Epp; cbn [bind] in H; [|discriminate].
+  destruct (ir_merge pi pj (pp_target pp) (pp_other pp)) as [m|] eqn:Em; cbn [bind] in H; [|discriminate].
+  apply pf_prepare_inv in Epp. destruct Epp as [Ekw Eother].
+  apply ir_merge_params in Em. rewrite Eother in Em.
+  apply pf_finish_params in H.
+  assert (HS : NoDup (sig_pos_names a)) by (apply (NoDup_app_l _ _ (ff_nodup a F))).
+  assert (Hop : od_of_pairs (sig_pairs a (pos_args a)) = sig_pairs a (pos_args a)).
+  { apply od_of_pairs_NoDup. rewrite sig_pairs_keys. exact HS. }
+  rewrite Hop in Em.
+  exists (ir_params (pp_target pp)), (pp_append pp), (ir_params m).
+  split; [exact Ekw|]. split; [exact Em|]. split; [exact H|].
+  apply merge_params_keys in Em; [|rewrite sig_pairs_keys; exact HS].
+  rewrite sig_pairs_keys in Em. fold (sig_pos_names a) in Em.
+  unfold append_kw. unfold kw_split in Ekw. unfold expected_names. cbn [fd_arguments].
+  unfold doc_pos_names, kwarg_documented, kwarg_name.
+  destruct (ar_kwarg a) as [karg|] eqn:Ek; cbn [option_map opt_list].
+  - destruct (od_get (a_name karg) (doc_params d (SFunc n a b dc rr))) as [p|] eqn:Eg.
+    + destruct (fld_present (g_typ p)); [|discriminate].
+      injection Ekw as Et Ea. rewrite <- Ea. cbn [fold_left fst snd].
+      assert (Hin : In (a_name karg) (doc_names d (SFunc n a b dc rr))) by (eapply od_get_Some_In_keys; exact Eg).
+      apply mem_str_In in Hin. rewrite Hin.
+      assert (Kt : od_keys (ir_params (pp_target pp))
+                   = filter (fun x => negb (str_eqb (a_name karg) x)) (doc_names d (SFunc n a b dc rr))).
+      { rewrite <- Et. apply od_keys_pop. apply (df_nodup _ _ _ D). }
+      rewrite od_keys_set_absent.
+      * rewrite Em, Kt. rewrite <- app_assoc. reflexivity.
+      * rewrite Em, Kt. intros Hx. apply in_app_or in Hx. destruct Hx as [Hx|Hx].
+        -- apply filter_In in Hx. destruct Hx as [_ Hx]. rewrite str_eqb_refl in Hx. discriminate.
+        -- apply filter_In in Hx. destruct Hx as [Hx _].
+           pose proof (ff_nodup a F) as Hnd. unfold kwarg_name in Hnd. rewrite Ek in Hnd. cbn [option_map opt_list] in Hnd.
+           apply NoDup_remove_2 in Hnd. rewrite app_nil_r in Hnd. tauto.
+    + injection Ekw as Et Ea. rewrite <- Ea. cbn [fold_left].
+      assert (Hnot : ~ In (a_name karg) (doc_names d (SFunc n a b dc rr))) by (apply od_get_None_iff; exact Eg).
+      pose proof Hnot as Hm. apply mem_str_false in Hm. rewrite Hm. rewrite app_nil_r.
+      rewrite filter_neq_notin by exact Hnot. rewrite Em, <- Et. reflexivity.
+  - injection Ekw as Et Ea. rewrite <- Ea. cbn [fold_left]. rewrite app_nil_r. rewrite Em, <- Et. reflexivity.
+Qed.
+
+(* ------------------------------------------------------------------ *)
+(* the ** parameter                                                    *)
+(* ------------------------------------------------------------------ *)
+Lemma snt_kwarg_lemma : forall k p rp,
+  snt_param k (mkG (g_doc p) (g_typ p) (Some (DV (VStr NoneStr)))) false true = Ok rp ->
+  kwarg_faithful (Some p) rp = true.
+Proof.
+  intros k p rp H. unfold snt_param, snt_pre in H. cbn [g_doc g_typ g_default] in H.
+  assert (G : forall p1, g_doc p1 = g_doc p -> g_default p1 = Some (DV (VStr NoneStr)) -> snt_post p1 true = Ok rp ->
+              kwarg_faithful (Some p) rp = true).
+  { intros p1 Hd1 Hv1 Hp. destruct (snt_post_spec _ _ Hp) as (Hv & Hd & _).
+    unfold kwarg_faithful. rewrite Hv, Hv1, Hd, Hd1. apply andb_true_iff. split.
+    - assert (E : doc_prose (Some p) = truthy_doc (g_doc p)).
+      { unfold doc_prose, truthy_doc. destruct (g_doc p) as [| |[|c r]]; reflexivity. }
+      rewrite E. apply fld_str_eqb_refl.
+    - cbn [opt_dval_eqb dval_eqb pyval_eqb]. apply str_eqb_refl. }
+  destruct (kwargs_like k).
+  - cbn [bind] in H. eapply G; [| |exact H]; reflexivity.
+  - destruct (infer_default _ (DV (VStr NoneStr)) false) as [p1|] eqn:Ei; cbn [bind] in H; [|discriminate].
+    destruct (infer_default_DV _ _ _ Ei) as (Hd1 & Hv1 & _). cbn [g_doc] in Hd1.
+    eapply G; [exact Hd1| |exact H]. rewrite Hv1. unfold norm_scalar. rewrite NoneStr_in_none_types. reflexivity.
+Qed.
+
+(* ------------------------------------------------------------------ *)
+(* misc                                                                *)
+(* ------------------------------------------------------------------ *)
+Lemma list_eqb_str_refl : forall l, list_eqb str_eqb l l = true.
+Proof. induction l as [|x l IH]; cbn [list_eqb]; [reflexivity|]. rewrite str_eqb_refl, IH. reflexivity. Qed.
+
+Lemma od_get_app : forall {A} k (l1 l2 : list (str * A)),
+  od_get k (l1 ++ l2) = match od_get k l1 with Some v => Some v | None => od_get k l2 end.
+Proof.
+  intros A k l1 l2; induction l1 as [|[k0 v0] l1 IH]; cbn [app od_get]; [reflexivity|].
+  destruct (str_eqb k k0); [reflexivity|exact IH].
+Qed.
+
+Lemma first_some_class_None : forall l, first_some_class l = None -> forall x, In x l -> x = None.
+Proof.
+  induction l as [|[k|] l IH]; intros H x Hx; [destruct Hx|discriminate|].
+  destruct Hx as [<-|Hx]; [reflexivity|apply IH; assumption].
+Qed.
+
+Lemma pad_defaults_exact : forall {A} (ds : list (option A)) n, n = List.length ds -> pad_defaults n ds = ds.
+Proof. intros A ds n ->. unfold pad_defaults. rewrite Nat.sub_diag. reflexivity. Qed.
+
+Lemma pos_args_incl : forall a x, In x (pos_args a) -> In x (ar_args a).
+Proof.
+  intros a x H. unfold pos_args in H. destruct (str_eqb _ _); [exact H|].
+  destruct (ar_args a); [destruct H|right; exact H].
+Qed.
+
+Lemma find_none_by_name : forall kind args (ds : list (option expr)) k, ~ In k (map a_name args) ->
+  forall y, In y (map2 (fun x d => mkSig (a_name x) kind d (a_ann x)) args ds) -> str_eqb (s_name y) k = false.
+Proof.
+  intros kind args ds k Hk y Hy. apply str_eqb_neq. intros Heq. apply Hk. rewrite <- Heq.
+  eapply map2_sig_In_name; exact Hy.
+Qed.
+
+(* the signature entry of a positional / keyword-only name, on both sides *)
+Lemma sig_entry : forall n a b dc rr k, fd_facts a ->
+  List.length (ar_defaults a) <= List.length (pos_args a) -> In k (sig_pos_names a) ->
+  exists x dflt kind, In x (ar_args a ++ ar_kwonly a) /\ kind <> VarKw
+    /\ od_get k (sig_pairs a (pos_args a)) = Some (sig_gparam x dflt)
+    /\ sig_param_of (SFunc n a b dc rr) k = Some (mkSig k kind dflt (a_ann x)).
+Proof.
+  intros n a b dc rr k F Hself Hk.
+  pose proof (NoDup_app_l _ _ (ff_nodup a F)) as HS. unfold sig_pos_names in HS, Hk.
+  unfold sig_param_of. rewrite (py_signature_spec _ _ _ _ _ F Hself).
+  unfold sig_pairs. rewrite od_get_app.
+  rewrite (pad_defaults_exact (ar_kw_defaults a)) by apply (ff_kw a F).
+  destruct (in_dec (list_eq_dec ascii_dec) k (map a_name (pos_args a))) as [Hp|Hp].
+  - destruct (od_get_map2_func (pos_args a) (pad_defaults (List.length (pos_args a)) (map Some (ar_defaults a))) k)
+      as (x & dflt & Hx & Hn & Hg & Hf); [apply pad_defaults_length|apply (NoDup_app_l _ _ HS)|exact Hp|].
+    exists x, dflt, PosOrKw. split; [apply in_or_app; left; apply pos_args_incl; exact Hx|]. split; [discriminate|].
+    rewrite Hg. split; [reflexivity|]. apply find_app_l. apply Hf.
+  - assert (Hkw : In k (map a_name (ar_kwonly a))) by (apply in_app_or in Hk; tauto).
+    assert (Hnone : od_get k (map2 func_arg2param (pos_args a)
+                                   (pad_defaults (List.length (pos_args a)) (map Some (ar_defaults a)))) = None).
+    { apply od_get_None_iff. unfold od_keys. rewrite map2_func_arg2param_keys by apply pad_defaults_length. exact Hp. }
+    rewrite Hnone.
+    destruct (od_get_map2_func (ar_kwonly a) (ar_kw_defaults a) k) as (x & dflt & Hx & Hn & Hg & Hf).
+    + rewrite (ff_kw a F). lia.
+    + clear - HS. induction (map a_name (pos_args a)) as [|y l IH]; [exact HS|].
+      cbn [app] in HS. inversion HS; subst. apply IH; assumption.
+    + exact Hkw.
+    + exists x, dflt, KwOnly. split; [apply in_or_app; right; exact Hx|]. split; [discriminate|].
+      rewrite Hg. split; [reflexivity|].
+      rewrite find_app_r by (apply find_none_by_name; exact Hp).
+      apply find_app_l. apply Hf.
+Qed.
+
+Lemma sig_entry_kw : forall n a b dc rr karg, fd_facts a ->
+  List.length (ar_defaults a) <= List.length (pos_args a) -> ar_kwarg a = Some karg ->
+  sig_param_of (SFunc n a b dc rr) (a_name karg) = Some (mkSig (a_name karg) VarKw None (a_ann karg)).
+Proof.
+  intros n a b dc rr karg F Hself Hk.
+  pose proof (ff_nodup a F) as Hnd. unfold kwarg_name in Hnd. rewrite Hk in Hnd. cbn [option_map opt_list] in Hnd.
+  apply NoDup_remove_2 in Hnd. rewrite app_nil_r in Hnd. unfold sig_pos_names in Hnd.
+  unfold sig_param_of. rewrite (py_signature_spec _ _ _ _ _ F Hself). rewrite Hk.
+  rewrite find_app_r by (apply find_none_by_name; intros Hin; apply Hnd; apply in_or_app; left; exact Hin).
+  rewrite find_app_r by (apply find_none_by_name; intros Hin; apply Hnd; apply in_or_app; right; exact Hin).
+  cbn [List.find s_name]. rewrite str_eqb_refl. reflexivity.
+Qed.
+
+Lemma wf_fd_ann : forall n a b dc rr x, wf_fd (SFunc n a b dc rr) = true -> In x (ar_args a ++ ar_kwonly a) ->
+  forall s, ann_text x = Some s -> s <> [].
+Proof.
+  intros n a b dc rr x H Hx s Hs. cbn [wf_fd] in H. apply andb_true_iff in H. destruct H as [_ H].
+  rewrite forallb_forall in H. specialize (H x Hx). unfold ann_text in Hs.
+  destruct (a_ann x) as [e|]; [|discriminate]. cbn [option_map] in Hs. inversion Hs; subst.
+  destruct (rstrip_chars [nl] (show_expr e)); [discriminate|]. discriminate.
+Qed.
+
+Lemma wf_doc_scalar : forall d n a b dc rr k, wf_doc d (SFunc n a b dc rr) = true ->
+  doc_default_scalar (od_get k (doc_params d (SFunc n a b dc rr))).
+Proof.
+  intros d n a b dc rr k H. unfold wf_doc in H. cbn [fd_arguments] in H.
+  apply andb_true_iff in H. destruct H as [_ H]. rewrite forallb_forall in H.
+  unfold doc_default_scalar. destruct (od_get k _) as [t|] eqn:E; [|exact I].
+  apply od_get_Some_In in E. specialize (H _ E). cbn [snd] in H.
+  destruct (g_default t) as [[v|e|r]|]; try exact I; discriminate.
+Qed.
+
+(* ------------------------------------------------------------------ *)
+(* the guarded theorem                                                 *)
+(* ------------------------------------------------------------------ *)
+Lemma C07_partial_lemma : forall pi pj d fd, perm_ok pi -> perm_ok pj -> guard_C07 d fd = true -> C07_at pi pj d fd.
+Proof.
+  intros pi pj d fd Hpi Hpj Hg. unfold guard_C07 in Hg. apply andb_true_iff in Hg. destruct Hg as [Hdom Hcls].
+  pose proof Hdom as Hdom0. unfold C07_domain in Hdom. apply andb_true_iff in Hdom. destruct Hdom as [Hwf Hdoc].
+  destruct (wf_fd_facts _ Hwf) as (n & a & b & dc & rr & -> & F).
+  pose proof (wf_doc_facts _ _ _ _ _ _ Hdoc) as D.
+  set (fd := SFunc n a b dc rr) in *.
+  (* read the guard *)
+  destruct (finding_class_C07 d fd) eqn:Efc; [discriminate|]. clear Hcls.
+  unfold finding_class_C07 in Efc. cbn [fd_arguments fd] in Efc. fold fd in Efc.
+  destruct (match kwarg_name a with Some _ => negb (kwarg_documented d a fd) | None => false end) eqn:C1; [discriminate|].
+  match type of Efc with (if ?c then _ else _) = None => destruct c eqn:C2; [discriminate|] end.
+  destruct (negb (is_prefix (doc_pos_names d a fd) (sig_pos_names a))) eqn:C3; [discriminate|].
+  destruct (Nat.ltb (List.length (pos_args a)) (List.length (ar_defaults a))) eqn:C4; [discriminate|].
+  destruct (existsb kwargs_like (sig_pos_names a)) eqn:C5; [discriminate|].
+  destruct (parse_default id_perm id_perm d fd) as [r0|er] eqn:C6; [|destruct er; discriminate].
+  destruct (py_signature fd) as [l|] eqn:C7; [|discriminate].
+  apply negb_false_iff in C3. apply Nat.ltb_ge in C4.
+  assert (Hog : order_guard d fd = true).
+  { unfold order_guard. cbn [fd_arguments fd]. fold fd. rewrite C3. cbn [andb].
+    destruct (kwarg_name a); [apply negb_false_iff in C1; exact C1|reflexivity]. }
+  exists r0. split.
+  { unfold parse_default. rewrite parse_function_canonical by assumption. exact C6. }
+  unfold parse_default in C6.
+  pose proof (parse_function_names _ _ _ _ _ _ _ _ _ Hdom0 C6) as Hnames.
+  pose proof (proj2 (order_guard_iff d fd Hdom0) Hog) as Horder.
+  unfold C07_check. apply andb_true_iff. split.
+  { rewrite Hnames, Horder. apply list_eqb_str_refl. }
+  destruct (parse_function_structure _ _ _ _ _ _ _ _ _ _ _ _ _ F D C6) as (tparams & app & m & Ekw & Em & Esn & Ekeys).
+  fold fd in Ekw, Ekeys.
+  assert (Hnd1 : NoDup (od_keys (append_kw app m))) by (rewrite Ekeys; apply expected_names_NoDup; assumption).
+  assert (Hok1 : forallb name_ok (od_keys (append_kw app m)) = true).
+  { rewrite Ekeys. eapply forallb_sub; [|apply (ff_ok a F)]. intros k Hk. eapply expected_names_sub; eauto. }
+  assert (HS : NoDup (sig_pos_names a)) by (apply (NoDup_app_l _ _ (ff_nodup a F))).
+  assert (Hndr : NoDup (od_keys (ir_params r0))) by (rewrite Hnames; apply expected_names_NoDup; assumption).
+  rewrite forallb_forall. intros [k rp] Hin.
+  assert (Hgr : od_get k (ir_params r0) = Some rp) by (apply In_od_get; assumption).
+  assert (Hk : In k (sig_pos_names a ++ opt_list (kwarg_name a))).
+  { rewrite <- (sig_names_spec n a b dc rr F). fold fd. rewrite <- Horder, <- Hnames. eapply od_get_Some_In_keys; exact Hgr. }
+  assert (Hkeq : od_keys (ir_params r0) = od_keys (append_kw app m)) by (apply (set_names_and_types_keys _ _ _ _ Hnd1 Hok1 Esn)).
+  assert (Hk1 : In k (od_keys (append_kw app m))).
+  { rewrite <- Hkeq. eapply od_get_Some_In_keys; exact Hgr. }
+  destruct (od_get_In_keys _ _ Hk1) as [q Hq].
+  destruct (set_names_and_types_get _ _ _ _ _ _ Hnd1 Hok1 Esn Hq) as (rp' & Hsnt & Hgr').
+  rewrite Hgr in Hgr'. inversion Hgr'; subst rp'. clear Hgr'.
+  unfold result_param_ok. cbn [fst snd].
+  unfold kw_split in Ekw.
+  apply in_app_or in Hk. destruct Hk as [HkS|Hkk].
+  - (* a positional / keyword-only parameter *)
+    destruct (sig_entry n a b dc rr k F C4 HkS) as (x & dflt & kind & Hx & Hkind & Hgo & Hsp).
+    fold fd in Hsp. rewrite Hsp. cbn [s_kind].
+    assert (Hnotkw : forall karg, ar_kwarg a = Some karg -> a_name karg <> k).
+    { intros karg Hka Heq. pose proof (ff_nodup a F) as Hnd. unfold kwarg_name in Hnd. rewrite Hka in Hnd.
+      cbn [option_map opt_list] in Hnd. apply NoDup_remove_2 in Hnd. rewrite app_nil_r in Hnd. subst k. tauto. }
+    (* the merged entry before _set_name_and_type *)
+    assert (Hqm : od_get k m = Some q /\ od_get k tparams = od_get k (doc_params d fd)).
+    { destruct (ar_kwarg a) as [karg|] eqn:Eka.
+      - destruct (od_get (a_name karg) (doc_params d fd)) as [p|] eqn:Egk.
+        + destruct (fld_present (g_typ p)); [|discriminate]. injection Ekw as <- <-.
+          unfold append_kw in Hq. cbn [fold_left fst snd] in Hq.
+          rewrite od_get_set_other in Hq by (apply (Hnotkw karg eq_refl)).
+          split; [exact Hq|]. apply od_get_pop_other. apply (Hnotkw karg eq_refl).
+        + injection Ekw as <- <-. split; [exact Hq|reflexivity].
+      - injection Ekw as <- <-. split; [exact Hq|reflexivity]. }
+    destruct Hqm as [Hqm Htp].
+    assert (Hres : match od_get k (doc_params d fd) with
+                   | Some t => merge_param t (sig_gparam x dflt) = Ok q
+                   | None => q = sig_gparam x dflt
+                   end).
+    { assert (Hndo : NoDup (od_keys (sig_pairs a (pos_args a)))) by (rewrite sig_pairs_keys; exact HS).
+      destruct (od_get k (doc_params d fd)) as [t|] eqn:Edk.
+      - destruct (merge_params_get_both id_perm tparams (sig_pairs a (pos_args a)) m k t (sig_gparam x dflt)
+                    id_perm_ok Hndo Em Htp Hgo) as (t' & Hmp & Hgm).
+        rewrite Hqm in Hgm. inversion Hgm; subst. exact Hmp.
+      - rewrite (merge_params_get_new id_perm tparams (sig_pairs a (pos_args a)) m k id_perm_ok Hndo Em Htp) in Hqm.
+        rewrite Hgo in Hqm. inversion Hqm; reflexivity. }
+    assert (Hpf : param_faithful (od_get k (doc_params d fd)) (mkSig k kind dflt (a_ann x)) rp = true).
+    { eapply param_faithful_lemma; [| | |exact Hres|exact Hsnt|].
+      * apply not_true_iff_false. intros Hkl. rewrite <- not_true_iff_false in C5. apply C5.
+        apply existsb_exists. exists k. split; assumption.
+      * eapply wf_fd_ann; [exact Hwf|exact Hx].
+      * eapply wf_doc_scalar; exact Hdoc.
+      * assert (Hin_l : In (mkSig k kind dflt (a_ann x)) l).
+        { unfold sig_param_of in Hsp. rewrite C7 in Hsp. apply find_some in Hsp. tauto. }
+        pose proof (first_some_class_None _ Efc _ (in_map _ _ _ Hin_l)) as Hc. cbn [s_kind s_name] in Hc.
+        destruct kind; try exact Hc. exfalso; apply Hkind; reflexivity. }
+    destruct kind; try exact Hpf. exfalso; apply Hkind; reflexivity.
+  - (* the ** parameter *)
+    unfold kwarg_name in Hkk. destruct (ar_kwarg a) as [karg|] eqn:Eka; cbn [option_map opt_list] in Hkk; [|destruct Hkk].
+    destruct Hkk as [<-|[]].
+    pose proof (sig_entry_kw n a b dc rr karg F C4 Eka) as Hskw. fold fd in Hskw. rewrite Hskw. cbn [s_kind].
+    unfold kwarg_name in C1. rewrite Eka in C1. cbn [option_map] in C1. apply negb_false_iff in C1.
+    unfold kwarg_documented, kwarg_name in C1. rewrite Eka in C1. cbn [option_map] in C1.
+    apply mem_str_In in C1. destruct (od_get_In_keys _ _ C1) as [p Hp]. fold fd in Hp.
+    rewrite Hp in Ekw. destruct (fld_present (g_typ p)); [|discriminate]. injection Ekw as <- <-.
+    unfold append_kw in Hq. cbn [fold_left fst snd] in Hq. rewrite od_get_set_same in Hq. inversion Hq; subst q.
+    rewrite Hp. eapply snt_kwarg_lemma; exact Hsnt.
+Qed.
+
+(* ------------------------------------------------------------------ *)
+(* the full statement is false: documented-first order                  *)
+(* ------------------------------------------------------------------ *)
+(* def f(a, b):
+       """Doc.
+
+       :param b: the b"""
+       pass                                                            *)
+Definition wit_fd : stmt :=
+  SFunc (L "f") (mkArguments [mkArg (L "a") None; mkArg (L "b") None] [] [] [] None None)
+        [SExpr (EConst (VStr (L "Doc." ++ [nl; nl] ++ L ":param b: the b"))); SOther (L "Pass") (L "pass") []] [] None.
+
+Definition wit_doc : option ir :=
+  Some (mkIR FNone (Has (L "static")) (Has (L "Doc.")) [(L "b", mkG (Has (L "the b")) Missing None)] FNone None).
+
+Lemma wit_in_domain : C07_domain wit_doc wit_fd = true.
+Proof. vm_compute. reflexivity. Qed.
+
+Lemma wit_result_names : exists r, parse_default id_perm id_perm wit_doc wit_fd = Ok r
+                                   /\ od_keys (ir_params r) = [L "b"; L "a"] /\ sig_names wit_fd = [L "a"; L "b"].
+Proof. eexists. split; [vm_compute; reflexivity|]. split; vm_compute; reflexivity. Qed.
+
+Lemma C07_refuted_lemma : ~ C07_statement.
+Proof.
+  intros H. destruct (H id_perm id_perm wit_doc wit_fd id_perm_ok id_perm_ok wit_in_domain) as (r & Hr & Hc).
+  destruct wit_result_names as (r' & Hr' & Hk & Hs). rewrite Hr in Hr'. inversion Hr'; subst r'.
+  unfold C07_check in Hc. apply andb_true_iff in Hc. destruct Hc as [Hc _].
+  rewrite Hk, Hs in Hc. vm_compute in Hc. discriminate.
+Qed.
+
+Lemma wit_class : finding_class_C07 wit_doc wit_fd = Some K_doc_order.
+Proof. vm_compute. reflexivity. Qed.
+
+(* ------------------------------------------------------------------ *)
+(* non-vacuity and class-free corollaries                              *)
+(* ------------------------------------------------------------------ *)
+(* def g(self, a: int, b=5, *, c: str = "x", **kwargs):
+       """Doc.
+
+       :param a: the a
+       :param b: the b. Defaults to 5
+       :param kwargs: extra
+       :type kwargs: ```dict```"""
+       return a                                                        *)
+Definition nv_fd : stmt :=
+  SFunc (L "g")
+        (mkArguments [mkArg (L "self") None; mkArg (L "a") (Some (EName (L "int"))); mkArg (L "b") None]
+                     [EConst (VInt 5)]
+                     [mkArg (L "c") (Some (EName (L "str")))] [Some (EConst (VStr (L "x")))]
+                     None (Some (mkArg (L "kwargs") None)))
+        [SExpr (EConst (VStr (L "Doc."))); SReturn (Some (EName (L "a")))] [] None.
+
+Definition nv_doc : option ir :=
+  Some (mkIR FNone (Has (L "static")) (Has (L "Doc."))
+             [(L "a", mkG (Has (L "the a")) Missing None);
+              (L "b", mkG (Has (L "the b. Defaults to 5")) Missing (Some (DV (VInt 5))));
+              (L "kwargs", mkG (Has (L "extra")) (Has (L "Optional[dict]")) (Some (DV (VStr NoneStr))))]
+             FNone None).
+
+Lemma C07_nonvacuous_lemma :
+  guard_C07 nv_doc nv_fd = true /\ List.length (sig_names nv_fd) = 4 /\ List.length (doc_names nv_doc nv_fd) = 3.
+Proof. split; [vm_compute; reflexivity|]. split; vm_compute; reflexivity. Qed.
+
+(* names and order for whole input classes, whatever the defaults and annotations are *)
+Lemma C07_names_lemma : forall pi pj d fd it ww ft fnm r, C07_domain d fd = true -> order_guard d fd = true ->
+  parse_function pi pj d fd it ww ft fnm = Ok r -> od_keys (ir_params r) = sig_names fd.
+Proof.
+  intros pi pj d fd it ww ft fnm r Hdom Hog H.
+  rewrite (parse_function_names _ _ _ _ _ _ _ _ _ Hdom H). apply order_guard_iff; assumption.
+Qed.
+
+(* nothing documented, no ** parameter: always the source order *)
+Lemma C07_names_undocumented : forall pi pj d fd it ww ft fnm r, C07_domain d fd = true ->
+  doc_names d fd = [] -> (match fd_arguments fd with Some a => kwarg_name a = None | None => False end) ->
+  parse_function pi pj d fd it ww ft fnm = Ok r -> od_keys (ir_params r) = sig_names fd.
+Proof.
+  intros pi pj d fd it ww ft fnm r Hdom Hd Hk H. eapply C07_names_lemma; eauto.
+  unfold order_guard. destruct (fd_arguments fd) as [a|]; [|destruct Hk]. rewrite Hk.
+  unfold doc_pos_names. rewrite Hk, Hd. reflexivity.
+Qed.
+
+(* everything documented, in signature order (a ** parameter documented anywhere) *)
+Lemma C07_names_all_in_order : forall pi pj d fd it ww ft fnm r a, C07_domain d fd = true ->
+  fd_arguments fd = Some a -> doc_pos_names d a fd = sig_pos_names a ->
+  (match kwarg_name a with Some _ => kwarg_documented d a fd = true | None => True end) ->
+  parse_function pi pj d fd it ww ft fnm = Ok r -> od_keys (ir_params r) = sig_names fd.
+Proof.
+  intros pi pj d fd it ww ft fnm r a Hdom Ha Hd Hk H. eapply C07_names_lemma; eauto.
+  unfold order_guard. rewrite Ha, Hd.
+  assert (E : is_prefix (sig_pos_names a) (sig_pos_names a) = true).
+  { apply is_prefix_spec. exists []. rewrite app_nil_r. reflexivity. }
+  rewrite E. destruct (kwarg_name a); [exact Hk|reflexivity].
+Qed.
+
+(* when the order differs it is exactly "documented first" - and still a permutation: nothing lost, nothing twice *)
+Lemma C07_permutation_lemma : forall pi pj d fd it ww ft fnm r, C07_domain d fd = true ->
+  (match fd_arguments fd with
+   | Some a => match kwarg_name a with Some _ => kwarg_documented d a fd | None => true end
+   | None => false end) = true ->
+  parse_function pi pj d fd it ww ft fnm = Ok r -> Permutation (od_keys (ir_params r)) (sig_names fd).
+Proof.
+  intros pi pj d fd it ww ft fnm r Hdom Hk H. rewrite (parse_function_names _ _ _ _ _ _ _ _ _ Hdom H).
+  apply expected_names_perm; assumption.
+Qed.
+
+(* ------------------------------------------------------------------ *)
+(* a class merged with its __init__                                    *)
+(* ------------------------------------------------------------------ *)
+Lemma filter_mem_app : forall (f : str -> bool) l1 l2, filter f (l1 ++ l2) = filter f l1 ++ filter f l2.
+Proof. intros. apply filter_app. Qed.
+
+(* the __init__ parameters keep their order in the merged interface when the class attributes that are
+   also __init__ parameters form, in class order, a prefix of them *)
+Lemma class_order_lemma : forall tnames inames : list str, NoDup inames ->
+  class_order_guard tnames inames = true -> init_names_in_merged tnames inames = inames.
+Proof.
+  intros T I HI Hg. unfold init_names_in_merged, class_merged_names, class_order_guard in *.
+  rewrite filter_app.
+  set (P := filter (fun k => mem_str k I) T) in *.
+  assert (E : filter (fun k => mem_str k I) (filter (fun k => negb (mem_str k T)) I)
+              = filter (fun k => negb (mem_str k P)) I).
+  { clear Hg HI. subst P. induction I as [|y I' IH] in T |- *; [reflexivity|].
+    assert (G : forall l, filter (fun k => mem_str k (y :: I')) (filter (fun k => negb (mem_str k T)) l)
+                          = filter (fun k => negb (mem_str k T)) (filter (fun k => mem_str k (y :: I')) l)).
+    { induction l as [|z l IHl]; [reflexivity|]. cbn [filter].
+      destruct (negb (mem_str z T)) eqn:E1; destruct (mem_str z (y :: I')) eqn:E2; cbn [filter]; rewrite ?E1, ?E2, IHl; reflexivity. }
+    rewrite G.
+    assert (Hall : filter (fun k => mem_str k (y :: I')) (y :: I') = y :: I').
+    { assert (Q : forall l, (forall k, In k l -> In k (y :: I')) -> filter (fun k => mem_str k (y :: I')) l = l).
+      { induction l as [|z l IHl]; intros Hs; [reflexivity|]. cbn [filter].
+        assert (Hz : mem_str z (y :: I') = true) by (apply mem_str_In; apply Hs; left; reflexivity).
+        rewrite Hz. f_equal. apply IHl. intros k Hk; apply Hs; right; exact Hk. }
+      apply Q; auto. }
+    rewrite Hall.
+    apply filter_ext_in. intros k Hk. f_equal.
+    destruct (mem_str k T) eqn:E1.
+    - symmetry. apply mem_str_In. apply filter_In. split; [apply mem_str_In; exact E1|apply mem_str_In; exact Hk].
+    - symmetry. apply mem_str_false. intros Hin. apply filter_In in Hin. destruct Hin as [Hin _].
+      apply mem_str_In in Hin. congruence. }
+  rewrite E. apply prefix_then_rest; assumption.
+Qed.
+
+(* names after _merge_inner_function's ir_merge(target = class IR, other = IR of the inner function) *)
+Lemma class_merge_names_lemma : forall pi pj t inner r, NoDup (od_keys (ir_params inner)) ->
+  ir_merge pi pj t inner = Ok r ->
+  od_keys (ir_params r) = class_merged_names (od_keys (ir_params t)) (od_keys (ir_params inner)).
+Proof.
+  intros pi pj t inner r Hnd H. apply ir_merge_params in H.
+  unfold class_merged_names. apply (merge_params_keys pi _ _ _ Hnd H).
+Qed.
